@@ -74,6 +74,25 @@ Theorem C08_structure_consistent_reachable : forall terms ops hs s,
 Proof. exact reachable_consistent. Qed.
 Print Assumptions C08_structure_consistent_reachable.
 
+(* third session (EGraph/OpsPreFacts.v): the dynamic premise ops_pre is DERIVED from one static, decidable premise on the
+   inserted terms (arity-correct children, pairwise distinct binders per node, no slot name of the fresh residue):
+   for EVERY history over such terms the structure is consistent when an operation has returned. *)
+From SE Require Import EGraph.OpsPreFacts.
+Theorem C08_structure_consistent_for_all_histories : forall terms ops hs s, List.Forall term_static terms ->
+  run_ops terms ops [] empty_egraph = Ok (hs, s) ->
+  hc_ok s /\
+  (forall sh i, na_get (hashcons s) sh = Some i <-> exists p, stored s i sh p) /\
+  (forall i j sh p q, stored s i sh p -> stored s j sh q -> i = j) /\
+  (forall i sh p, stored s i sh p -> canon s sh) /\
+  (forall i sh bij src nd, stored s i sh (bij, src) -> apply_slotmap false bij sh = Ok nd ->
+     exists a, eg_lookup s nd = Ok (Some a) /\ aid a = i).
+Proof. exact structure_consistent_reachable_static. Qed.
+Print Assumptions C08_structure_consistent_for_all_histories.
+
+Theorem C08_static_premise_gives_the_dynamic_one : forall terms ops, List.Forall term_static terms -> ops_pre terms ops [] empty_egraph.
+Proof. exact ops_pre_static. Qed.
+Print Assumptions C08_static_premise_gives_the_dynamic_one.
+
 Definition C08_no_error_full : Prop :=
   forall terms ops, exists hs s, run_ops terms ops [] empty_egraph = Ok (hs, s).
 
